@@ -128,6 +128,24 @@ Inductive violation :=
                                      DISTINCT required breaks of that very shift (duration = the break's duration, start inside
                                      [earliest, latest], relative to the tour's departure for an offset time), or they overlap *)
 | FRequiredBreakMissing (tour : Z)  (* a required break whose latest start lies inside the tour's time span is not taken *)
+| AClusterMember (tour : Z) (act : Z)  (* vicinity clustering: flattened activity `act` carries commute information (it is served
+                                     as a member of a cluster) but its job cannot be clustered: not a plan job with exactly one
+                                     task (clustering.md: "only jobs with single task can be clustered"), or listed in
+                                     filtering.excludeJobIds *)
+| FClusterThreshold (tour : Z) (act : Z)  (* a clustered activity lies farther from its stop's location (the cluster's centre) than
+                                     clustering.threshold allows: duration or distance, there or back *)
+| FClusterWindow (tour : Z) (act : Z)  (* tour with clustered stops: the reported service start of the activity lies in no time window
+                                     of a place (at its location) of the task it serves *)
+| RParking (tour : Z) (stop : Z)  (* reported parking of the stop is not [arrival, arrival + clustering.serving.parking] *)
+| RCommute (tour : Z) (act : Z)   (* the commute information of the activity does not fit: forward = from where the driver is, at
+                                     the moment he is free, matrix distance and duration, over before the service starts; backward
+                                     = from the end of the service, matrix distance and duration; with visiting = return every
+                                     forward commute has a backward one; or the activity is somewhere else without a commute *)
+| RStopArrival (tour : Z) (stop : Z)  (* tour with clustered stops: stop arrival <> departure of the previous stop + travel time
+                                     between the two stop locations *)
+| RStatCommuting (tour : Z) | RStatParking (tour : Z)   (* the commuting / parking part of the statistic *)
+| ARecharge (tour : Z)            (* the recharge activities of the tour are not DISTINCT stations defined for its vehicle shift *)
+| FRechargeDistance (tour : Z)    (* the distance driven without a recharge exceeds recharges.maxDistance *)
 | FReservedTime (tour : Z) (act : Z)  (* the reserved time of a required break is used for something else: between the reported
                                      start and end of activity `act` (flattened index in the tour without its break activities)
                                      there is less time outside the breaks than its place's duration, or between the previous
